@@ -18,12 +18,12 @@ from ..runner import Skip
 
 RULE = ("cases from rng(seed, 13, 0, i): graphs of SE(2)/SE(3) poses and R^2/R^3 landmarks (2-D, 3-D or both in one file) with odometry edges, SE(2)->R^2 landmark edges "
         "(identity offset), SE(3)->R^3 landmark edges referencing registered PARAMS_SE3OFFSET (rotated offsets, w<0), PARAMS_SE2OFFSET entries; values from hostile classes "
-        "incl. 1e-300..1e300, subnormals, negative / 2^62 / 2^64 ids, w<0 quaternions, dense information; 1..5 export/import cycles. every 6th case checks that inexpressible "
+        "incl. 1e-300..1e300, subnormals, negative / 2^62 / 2^64 ids, w<0 quaternions, dense information; 1..5 export/import cycles (sometimes with in-place edits of the loaded graph between cycles; sometimes an edge listed twice). every 6th case checks that inexpressible "
         "content (R^n odometry, R^n->R^n landmark edges, SE(2) landmark edge with non-identity offset) is refused. distinct = spec fingerprint; non-trivial = >= 2 edges and "
         ">= 1 non-integer value.")
 REQ = ["eval:roundtrip-structure", "eval:roundtrip-vertex-poses", "eval:roundtrip-edge-measurements", "eval:roundtrip-information", "eval:roundtrip-offsets", "eval:roundtrip-chi2",
        "eval:file-tokens-exact", "eval:element-level-roundtrip", "eval:inexpressible-content-refused", "class:family:2d", "class:family:3d", "class:family:both", "class:extreme_values", "class:meas_quat_wneg",
-       "class:offset_rotated", "class:cycles>1", "class:huge_ids"]
+       "class:offset_rotated", "class:cycles>1", "class:huge_ids", "class:identical_parallel_edges", "class:edited_in_place_between_cycles"]
 PLAN = {
     "quick": {"cases": 1500, "soft_s": 70, "min_nontrivial": 400, "require": REQ},
     "thorough": {"cases": 60000, "soft_s": 1300, "min_nontrivial": 15000, "require": REQ},
@@ -125,6 +125,10 @@ def make_spec(rng, ctx):
                 E.append({"type": "lm", "ids": [a, b], "info": sym_info(rng, 3, ext).tolist(), "est": z, "est_kind": "r3", "off": list(p["value"]), "off_kind": "se3", "off_id": p["id"]})
                 if abs(abs(p["value"][6]) - 1) > 1e-12:
                     ctx.count("class:offset_rotated")
+    if E and rng.random() < 0.3:
+        # an edge listed twice (two identical lines in the file, e.g. an edge split into equal halves)
+        E.insert(int(rng.integers(len(E) + 1)), gen.copy_spec(E[int(rng.integers(len(E)))]))
+        ctx.count("class:identical_parallel_edges")
     order = rng.permutation(len(V))
     V = [V[int(j)] for j in order]
     return {"vertices": V, "edges": E, "params": P}, fam, ext
@@ -293,6 +297,7 @@ def element_roundtrips(ctx, g0, feats, case):
 def roundtrip_case(ctx, i, rng):
     spec, fam, ext = make_spec(rng, ctx)
     cycles = int(rng.integers(1, 6))
+    edit_between = bool(cycles > 1 and rng.random() < 0.4)
     if cycles > 1:
         ctx.count("class:cycles>1")
     g0 = M.build(spec)
@@ -318,6 +323,25 @@ def roundtrip_case(ctx, i, rng):
                 return
             if not compare_graphs(ctx, g0, g, c, dict(feats, cycle=c), case):
                 return
+            if c == 1 and edit_between and not ext:
+                # history: the loaded graph is edited in place (offset through the edge that uses it, information scaled in place, a vertex moved) and becomes
+                # the reference for the remaining cycles; the next export must write the edited graph
+                try:
+                    # prime whatever the writer may remember
+                    g.to_g2o(os.path.join(d, "primed.g2o"))
+                    for e in g._edges:
+                        if rng.random() < 0.5:
+                            e.information *= 0.5
+                        if isinstance(e, M.EdgeLandmark) and isinstance(e.offset, M.PoseSE3) and rng.random() < 0.7:
+                            e.offset[:3] = [float(x) for x in rng.normal(size=3)]
+                        if isinstance(e.estimate, (M.PoseR2, M.PoseR3)) and rng.random() < 0.5:
+                            e.estimate[0] = float(rng.normal())
+                    v = g._vertices[int(rng.integers(len(g._vertices)))]
+                    v.pose[0] = float(rng.normal())
+                    g0 = g
+                    ctx.count("class:edited_in_place_between_cycles")
+                except Exception as ex:
+                    ctx.count("edit_between_cycles_raised:" + type(ex).__name__)
         with np.errstate(all="ignore"):
             c0, c1 = float(g0.calc_chi2()), float(g.calc_chi2())
         at_cut = False
